@@ -274,9 +274,15 @@ def fix_ptm(molecule):
     ptm_atoms = sorted(ptm_atoms, key=key_func)
 
     resid_to_idxs = defaultdict(list)
+    # The residue names are only needed for messages. They are collected now,
+    # since the atom they would be read from later may be among the atoms
+    # that get removed.
+    resid_to_name = {}
     for n_idx in molecule:
         residx = molecule.nodes[n_idx]['resid']
         resid_to_idxs[residx].append(n_idx)
+        if residx not in resid_to_name:
+            resid_to_name[residx] = '{resname}{resid}'.format(**molecule.nodes[n_idx])
     resid_to_idxs = dict(resid_to_idxs)
 
     # Keep track of all nodes that get removed due to unknown PTMs
@@ -316,8 +322,7 @@ def fix_ptm(molecule):
         except KeyError:
             LOGGER.warning('Could not identify the modifications for'
                            ' residues {}, involving atoms {}',
-                           ['{resname}{resid}'.format(**molecule.nodes[resid_to_idxs[resid][0]])
-                            for resid in sorted(set(resids))],
+                           [resid_to_name[resid] for resid in sorted(set(resids))],
                            ['{atomid}-{atomname}'.format(**molecule.nodes[idx])
                             for idxs in res_ptms for idx in idxs[0]],
                            type='unknown-input')
@@ -331,8 +336,7 @@ def fix_ptm(molecule):
         # residue(s); and a single PTM can span multiple residues.
         LOGGER.info("Identified the modifications {} on residues {}",
                     [out[0].graph['name'] for out in identified],
-                    ['{resname}{resid}'.format(**molecule.nodes[resid_to_idxs[resid][0]])
-                     for resid in resids])
+                    [resid_to_name[resid] for resid in resids])
         for ptm, match in identified:
             ptm.match = match
             for mol_idx, ptm_idx in match.items():
